@@ -170,7 +170,9 @@ CLAIMS = {
         "divides by zero at 120 deg (proved, known finding); the equal-area mesh is defined for every r > 0, holds 4D(2D+1) grid "
         "nodes (D = ceil(90/r)) and covers the sphere: every direction v has a mesh vector g with v.g >= cos(pi/(4D)) - 1/(2D) "
         ">= cos(r pi/360) - r/180 (all r > 0 without pole-duplicate removal, 0.002 <= r <= 360 deg with it; cos(theta) is "
-        "sampled uniformly, so the angular radius scales like sqrt r at the poles); hexagonal mesh: unit only. SO(3) - a sample "
+        "sampled uniformly, so the angular radius scales like sqrt r at the poles), and for hemisphere='upper'/'lower' every mesh "
+        "vector lies in the requested closed hemisphere and every direction of it is covered with the same bound; hexagonal "
+        "mesh: unit only. SO(3) - a sample "
         "built as unique(filter inside grid) lies in the region, has no duplicates and keeps every grid point inside; local "
         "samples stay within the requested angle; the three-uniform-samples quaternion is unit; from_euler(0, theta, pi/2 - "
         "phi) rotates Z exactly onto (theta, phi); an L-Lipschitz image of a grid of mesh h covers within L.h; the grids of "
@@ -180,7 +182,7 @@ CLAIMS = {
         "cos(r pi/360) sqrt(1 - r/180) (the radial Hopf coordinate is sampled uniformly in sin^2, so the worst-case angle "
         "scales like sqrt r at the poles). NOT proved: the cubochoric grid, the restriction of a grid to a fundamental zone "
         "(grid rotations outside the zone are dropped, so the SO(3) covering does not transfer), and the coverings of the spherified, "
-        "hexagonal, icosahedral and offset/hemisphere meshes: those covering radii are measured on every run "
+        "hexagonal, icosahedral and offset/hemisphere UV meshes: those covering radii are measured on every run "
         "against method-specific bounds fixed in advance (1.5 r, 2.2 r, 10 sqrt(r); S2 0.9 r, 5.4 sqrt(r)) - hence category "
         "'other'. The model is tied to the code by exact comparison of grid counts and 1e-12 comparison of coordinates on ~54 "
         "awkward resolutions x all options; the proved bounds (UV, equal-area, SO(3) grids) are also evaluated on the "
